@@ -130,6 +130,17 @@ func (c *Ctx) lexModel() (*lexModel, string) {
 			m.qstring = s
 		}
 	}
+	if m.unquoted == nil && m.qstring != nil {
+		// the unquoted state may test its delimiters with strings.ContainsRune: it is the remaining state the ground
+		// state returns
+		eachInstr(m.ground, func(in ssa.Instruction) {
+			if r, ok := in.(*ssa.Return); ok && len(r.Results) == 1 {
+				if f := funcValue(r.Results[0]); f != nil && f != m.ground && f != m.qstring {
+					m.unquoted = f
+				}
+			}
+		})
+	}
 	if m.unquoted == nil || m.qstring == nil {
 		return nil, "unquoted / double-quoted lexer states not identified"
 	}
